@@ -63,6 +63,28 @@ def _pool_invisible(req):
     return {"reproduced": ("p", 1) not in got, "result": sorted(got)}
 
 
+@named("variable_named_none")
+def _variable_named_none(req):
+    from clingo.ast import ProgramBuilder
+
+    from ngo.api import optimize
+    from ngo.utils.globals import auto_detect_input, auto_detect_output
+
+    src = "q(1..2). v(1..3). {p(G,L) : v(L)} 1 :- q(G). a(S) :- S = #sum{ X,x : p(_,X) }. #show a/1."
+    prg = []
+    parse_string(src, prg.append)
+    res = optimize(prg, auto_detect_input(prg), auto_detect_output(prg), **{t: t == "sum_chains" for t in ALL})
+    ctl = Control(["0", "--warn=none"])
+    try:
+        with ProgramBuilder(ctl) as b:
+            for s in res:
+                b.add(s)
+        ctl.ground([("base", [])])
+    except RuntimeError as e:
+        return {"reproduced": True, "error": repr(e)}
+    return {"reproduced": False}
+
+
 def run(req):
     kind = req.get("kind")
     if kind == "answer_sets":
